@@ -15,7 +15,8 @@ def subsets_for(rnd, names, shapes, symbolic=True, all_lazy_only=False):
     inputs) one proper subset."""
     subs = []
     if symbolic:
-        subs.append({"names": list(names), "sigs": {n: ops.symbolic_sig(rnd, shapes[n]) for n in names}})
+        tagged = rnd.random() < 0.7      # distinct symbols per input: their run-time extents may differ
+        subs.append({"names": list(names), "sigs": {n: ops.symbolic_sig(rnd, shapes[n], tag=n if tagged else "") for n in names}})
     else:
         subs.append({"names": list(names)})
     if not all_lazy_only and len(names) > 1:
@@ -273,6 +274,46 @@ def elementwise_cases(rnd, n, prefix="E", funcs=None, styles=("small", "boundary
     return out
 
 
+def constant_operand_cases(rnd, n, prefix="K", funcs=None):
+    """Binary element-wise calls where one operand is a data-holding one-element constant (all 0/False or all 1/True,
+    rank 0-2) and the other has any rank and may be a placeholder with dynamic extents: the shapes on which
+    constant-folding shortcuts must still broadcast."""
+    out = []
+    funcs = funcs or (LOGIC_BIN + BIT_BIN + ["add", "multiply", "subtract", "equal"])
+    funcs = [f for f in funcs if f in LOGIC_BIN + BIT_BIN + NUM_BIN + CMP_BIN + FLOAT_BIN + SHIFT_BIN]
+    if not funcs:
+        return out
+    cshapes = [[], [1], [1, 1]]
+    oshapes = [[], [1], [3], [2, 1], [1, 3], [0], [2, 0]]
+    i = 0
+    while len(out) < n:
+        f = funcs[i % len(funcs)]
+        i += 1
+        dom = ew_domain(f)
+        d = rnd.choice(dom)
+        b = ops.base(d)
+        v = rnd.choice([0, 1])
+        cs, os_ = rnd.choice(cshapes), rnd.choice(oshapes)
+        cdata = [bool(v)] if b == "bool" else [ops.fhex(float(v))] if b in ops.FLOATS else [v]
+        const = {"dtype": d, "shape": cs, "data": cdata}
+        other = ops.tensor(rnd, d, os_, "small")
+        first = rnd.random() < 0.5
+        xs = [const, other] if first else [other, const]
+        if f in ("floor_divide", "remainder", "divide", "pow") + tuple(SHIFT_BIN):
+            xs = fix_operands(rnd, f, d, xs)
+        use_op = f in OPSYM and rnd.random() < 0.3
+        impl = f"out = x {OPSYM[f]} y" if use_op else f"out = ndx.{f}(x, y)"
+        orc = f"out = {np_call(f, ['x', 'y'])}"
+        if f == "floor_divide" and b in ops.FLOATS:
+            orc = "out = np.floor(x / y)"
+        meta = {"func": f, "dtype": d, "dclass": dclass(d), "style": "constant-operand", "via": "operator" if use_op else "function"}
+        c = mkcase(f"{prefix}-{len(out)}-{f}", {"x": xs[0], "y": xs[1]}, impl, orc, meta, rnd, ew_tol(f, d))
+        lazy = "y" if first else "x"
+        c["lazy_subsets"] = [{"names": [lazy], "sigs": {lazy: [None] * len(os_)}}, {"names": [lazy]}]
+        out.append(c)
+    return out
+
+
 # --------------------------------------------------------------------------- reductions ---
 RED = ["sum", "prod", "min", "max", "mean", "var", "std", "all", "any", "cumulative_sum", "argmax", "argmin"]
 
@@ -403,6 +444,13 @@ def sorting_cases(rnd, n, prefix="S", max_len=40, dtypes=None):
             r = rnd.randint(1, 3)
             sh = [rnd.choice([1, 2, 3, 5, max_len if r == 1 else 4]) for _ in range(r)]
             ax = rnd.randint(-r, r - 1)
+            if rnd.random() < 0.12:
+                # an axis longer than the element type can count: positions must still be int64 positions
+                r = rnd.randint(1, 2)
+                long_ = {"int8": 130, "uint8": 260, "int16": 32800, "uint16": 65600}.get(b, 300)
+                sh = [long_] if r == 1 else rnd.choice([[2, long_], [long_, 2]])
+                ax = sh.index(long_) - rnd.choice([0, r])
+                meta["long_axis"] = True
             desc = rnd.random() < 0.4
             meta["descending"] = desc
             x = vec(sh)
